@@ -258,25 +258,22 @@ dedupe = Unit(
     "processing", "_schedule_rewrites", slice=slice_dedupe,
     params={"transaction_rewrites": ("map", TRANSACTION, ("seq", REWRITE))},
     ensures=[
+        # C10: "a transaction is dropped only if it ... duplicates ... a transaction with precedence": every key collected for deletion has
+        # the same rewrites as a transaction that comes EARLIER in the sorted order (= has precedence)
         ("marked-duplicate-only-if-an-earlier-transaction-has-the-same-rewrites",
          "forall(lambda j: implies(0 <= j and j < len(duplicate_transaction_keys), exists(lambda i, e: 0 <= e and e < i and i < len(order())"
          " and order()[i] == duplicate_transaction_keys[j] and content(order()[e]) == content(order()[i]))))"),
-        ("every-later-copy-is-marked",
-         "forall(lambda i, e: implies(0 <= e and e < i and i < len(order()) and content(order()[e]) == content(order()[i]),"
-         " exists(lambda j: 0 <= j and j < len(duplicate_transaction_keys) and duplicate_transaction_keys[j] == order()[i])))"),
     ],
     loops={0: {"inv": [
-        "forall(lambda e: implies(0 <= e and e < _i, content(_iter[e]) in seen_transactions))",
         "forall_obj(lambda x: implies(x in seen_transactions, exists(lambda e: 0 <= e and e < _i and content(_iter[e]) == x)))",
         "forall(lambda j: implies(0 <= j and j < len(duplicate_transaction_keys), exists(lambda i, e: 0 <= e and e < i and i < _i"
         " and _iter[i] == duplicate_transaction_keys[j] and content(_iter[e]) == content(_iter[i]))))",
-        "forall(lambda i, e: implies(0 <= e and e < i and i < _i and content(_iter[e]) == content(_iter[i]),"
-        " exists(lambda j: 0 <= j and j < len(duplicate_transaction_keys) and duplicate_transaction_keys[j] == _iter[i])))",
     ]}},
     ghost={"order": "lambda: sorted(transaction_rewrites)", "content": "lambda t: tuple(transaction_rewrites[t])"},
     calls={"tuple": _tuple_hook}, records=RECORDS, props=("C10", "C06"),
     local_shapes={"duplicate_transaction_keys": ("seq", TRANSACTION), "seen_transactions": ("set", "obj")},
+    note="the 'dropped only if' direction that C10 states; that every later copy IS marked (completeness) is not claimed here: its invariant (exists under forall over the sorted "
+         "keys) times out in z3 and cvc5, and stays with the bounded marker drive",
 )
 dedupe.key_suffix = "duplicate-detection"
-# not registered: the completeness invariant (nested exists under forall over the sorted key sequence) times out in z3 and cvc5;
-# duplicate detection stays bounded (C10 marker drive).  Kept for a later round.
+UNITS.append(dedupe)
